@@ -46,7 +46,7 @@ PROPS = ['C%02d' % i for i in range(1, 21)]
 NPROC = {'quick': int(os.environ.get('VERIF_QUICK_PROCS', '8')),
          'thorough': int(os.environ.get('VERIF_PROCS', '16'))}
 CASE_WATCHDOG_S = 60
-SHARD_TIMEOUT_S = {'quick': 900, 'thorough': 4 * 3600}
+SHARD_TIMEOUT_S = {'quick': 3600, 'thorough': 4 * 3600}
 MAX_STORED_VIOLATIONS = 25
 ONLY = os.environ.get('VERIF_ONLY')   # debugging aid: run only the cases whose repr contains this text
 
